@@ -1010,7 +1010,8 @@ orc_compiler_get_temp_reg (OrcCompiler *compiler)
     }
   }
   for(j=0;j<compiler->n_constants;j++){
-    if (compiler->constants[j].alloc_reg) {
+    /* a back end may mark "no register" with a negative value */
+    if (compiler->constants[j].alloc_reg > 0) {
       compiler->alloc_regs[compiler->constants[j].alloc_reg] = 1;
     }
   }
@@ -1514,7 +1515,8 @@ orc_compiler_get_constant_reg (OrcCompiler *compiler)
     }
   }
   for(j=0;j<compiler->n_constants;j++){
-    if (compiler->constants[j].alloc_reg) {
+    /* a back end may mark "no register" with a negative value */
+    if (compiler->constants[j].alloc_reg > 0) {
       compiler->alloc_regs[compiler->constants[j].alloc_reg] = 1;
     }
   }
